@@ -222,6 +222,7 @@ MUTANTS: List[Tuple[str, List[Tuple[str, str, str]], List[Tuple[str, str]]]] = [
     ('f75-format-from-suffix', [(F, "        serializer = serializer_factory.from_extension(glob[0].name.rsplit('.', 1)[-1])\n", "        serializer = serializer_factory.from_extension(glob[0].suffix[1:])\n")], [('C18', 'FS-7')]),
     ('f76-context-outside-try', [(C, "        try:\n            ctx = dag_ctx.create_context_from_chart(\n                chart=self,\n                pipeline_id=pipeline_id,\n                input_kwargs=input_kwargs,\n                meta=meta if meta is not None else {},\n            )\n\n        except Exception as ex:\n            # The artifact store or an event manager of the chart could not be created: there is nobody to notify\n            return PipelineResult(pipeline_id=pipeline_id, value=None, error=ex)\n",
                                   "        ctx = dag_ctx.create_context_from_chart(\n            chart=self,\n            pipeline_id=pipeline_id,\n            input_kwargs=input_kwargs,\n            meta=meta if meta is not None else {},\n        )\n")], [('C05', 'ER-2')]),
+    ('f89-broken-thread-pool-ready', [(TH, " or self._pool_executor._broken:", ":")], [('C17', 'EX-4')]),
 ]
 
 ALL_PROPS = [f'C{n:02d}' for n in range(2, 21)]
